@@ -1,5 +1,6 @@
 import Bpmn.Driver.Util
 import Bpmn.Model.Builder
+import Bpmn.Gen.C19
 /-! Driver for C19: replays builder scripts through the model (the id oracle is recovered from the ids the
 implementation produced), compares definitions, shapes, edges and waypoints, and evaluates the C19 predicates
 on what the implementation produced. -/
@@ -179,16 +180,20 @@ def bindDefs (b : Binding) (m i : Defs) : Binding :=
     if g.edges.length = h.edges.length then bindList (·.id) b g.edges h.edges else b
   | _, _ => b
 
-def runModel (b : Binding) (ops : List Op) : Option Defs := (World.run (oracleOf b) ops).result
+/-- the type switch of `AddActivity` as the extractor read it from the tree this driver was built for -/
+def storedNow : Option (Kind → Bool) := Bpmn.Gen.C19.addActivityStored.map storedBy
 
-def recover (ops : List Op) (impl : Defs) : Nat → Binding → Binding
+def runModel (st : Kind → Bool) (b : Binding) (ops : List Op) : Option Defs :=
+  (World.run st (oracleOf b) ops).result
+
+def recover (st : Kind → Bool) (ops : List Op) (impl : Defs) : Nat → Binding → Binding
   | 0, b => b
   | fuel + 1, b =>
-    match runModel b ops with
+    match runModel st b ops with
     | none => b
     | some m =>
       let b' := bindDefs b (canon m) impl
-      if b'.length = b.length then b else recover ops impl fuel b'
+      if b'.length = b.length then b else recover st ops impl fuel b'
 
 /-! ### comparison -/
 
@@ -262,7 +267,15 @@ structure ScriptInfo where
   acts : List (List (Kind × Option Nat)) := []   -- per process, in insertion order
   cur : List (Kind × Option Nat) := []
 
-def specsOf (c : Ctx) (cfg : Cfg) (hasUnstored : Bool) (impl : Impl) (d : Defs) : List String := Id.run do
+/-- the types the known finding `activity_not_stored` is about (not stored on the tree the finding was recorded
+on); a dangling flow caused by any OTHER type the switch no longer stores gets a signature of its own -/
+def knownUnstored : List Kind := [.adHocSubProcess, .transaction, .activity]
+
+def specsOf (c : Ctx) (cfg : Cfg) (unstored : List Kind) (impl : Impl) (d : Defs) : List String := Id.run do
+  let hasUnstored := !unstored.isEmpty
+  let notStoredSig := match unstored.find? (fun k => !knownUnstored.contains k) with
+    | some k => s!"activity_not_stored_{k.goName}:"
+    | none => "activity_not_stored:"
   let mut sp : List String := []
   -- ids unique
   let dups := dupsOf impl.strIds
@@ -279,7 +292,7 @@ def specsOf (c : Ctx) (cfg : Cfg) (hasUnstored : Bool) (impl : Impl) (d : Defs) 
       let tgtN := p.nodes.filter (·.id = f.tgt)
       if srcN.isEmpty || tgtN.isEmpty then
         if hasUnstored then
-          sp := s!"activity_not_stored: process {k} flow {showFlow c f}: an end of the flow is not in the process (AddActivity drops activity types outside its type switch)" :: sp
+          sp := s!"{notStoredSig} process {k} flow {showFlow c f}: an end of the flow is not in the process (AddActivity drops activity types outside its type switch)" :: sp
         else
           sp := s!"flow_end_missing: process {k} flow {showFlow c f}" :: sp
       else
@@ -371,6 +384,7 @@ def checkBuild (params lines : List String) : CaseResult := Id.run do
         let rg ← parseInt? rg; let pg ← parseInt? pg; let l ← parseBool? l
         pure (({ sx, sy, cg, rg, pg, scale := s } : Cfg), l)
       | _ => none) | return { bad := ["c19 params"] }
+  let some stored := storedNow | return { bad := ["fact addActivityStored unknown: the type switch of AddActivity was not found"] }
   let mut r : CaseResult := {}
   -- the grid on which the integer model is exact: even unit values, scale a multiple of 8
   if cfg.scale % 8 != 0 || [cfg.sx, cfg.sy, cfg.cg, cfg.rg, cfg.pg].any (· % 2 != 0) then
@@ -425,17 +439,17 @@ def checkBuild (params lines : List String) : CaseResult := Id.run do
     r := { r with bad := s!"cannot parse: {m}" :: r.bad }
   let some d := impl.defs | return { r with bad := "no definitions recorded" :: r.bad }
   if !r.bad.isEmpty then return r
-  let hasUnstored := info.acts.any (·.any (fun a => !a.1.stored))
+  let unstored := (info.acts.flatten.map (·.1)).filter (fun k => !stored k) |>.eraseDups
   -- model vs implementation
   if !impl.offgrid.isEmpty then
     r := { r with diffs := s!"coordinates off the exact grid: {impl.offgrid}" :: r.diffs }
   else if impl.nonfinite.isEmpty then
-    let b := recover ops d 6 []
-    match runModel b ops with
+    let b := recover stored ops d 6 []
+    match runModel stored b ops with
     | none => r := { r with bad := "script has no dbout" :: r.bad }
     | some m => r := { r with diffs := compareDefs c (canon m) d ++ r.diffs }
   -- the property on the implementation's output
-  let sp := specsOf c cfg hasUnstored impl d
+  let sp := specsOf c cfg unstored impl d
   let dupGen := sp.any (·.startsWith "duplicate_generated_id")
   r := { r with specs := sp ++ r.specs }
   -- round trip and engine runs
